@@ -36,6 +36,8 @@ LEVEL_NOTE = ("Trusted: Coq kernel + vm_compute; hand-written model coq/Model/C1
               "multi-step (group-exchange) kex is modelled but not driven.")
 TECHNIQUE = "Coq proof (invariant + trace monitor over an event-driven state machine) + AST ordering checks + scripted loopback differential"
 
+GENS = ["c41", "c17"]       # the model imports coq/Model/C41.v, which has its own generated tables
+
 PASSWORD = "pw-C17-s3cr3t-éè"
 USER = "user17"
 CERT = "-cert-v01@openssh.com"
@@ -572,6 +574,25 @@ MISMATCH = ("other-same-type", "other-type-only", "hashed-other", "hashed-other-
 POLICIES = ["reject", "autoadd", "warning", "custom-raise", "custom-accept"]
 
 
+class C17Refusal(BaseException):
+    """a refusal that is not even an Exception"""
+
+
+# a policy refuses by RAISING; the class of what it raises must not matter
+REFUSALS = {
+    "custom-raise": None,                                   # SSHException (filled in lazily)
+    "custom-raise-permissionerror": PermissionError,        # OSError subclasses: pin file unreadable, ...
+    "custom-raise-filenotfound": FileNotFoundError,
+    "custom-raise-ioerror": IOError,
+    "custom-raise-timeout": TimeoutError,
+    "custom-raise-valueerror": ValueError,
+    "custom-raise-keyerror": KeyError,
+    "custom-raise-eoferror": EOFError,
+    "custom-raise-baseexception": C17Refusal,
+}
+RAISING = [k for k in REFUSALS if k != "custom-raise"]
+
+
 def cconnect_cases(ctx, w):
     p = w.paramiko
     from paramiko.hostkeys import HostKeys
@@ -596,7 +617,11 @@ def cconnect_cases(ctx, w):
         must = [c for c in combos if c[1] == "user" and (c[2] in ("reject", "autoadd") or
                                                          (c[0] in MISMATCH and c[2] in ("warning", "custom-accept")))]
         rest = [c for c in combos if c not in must]
-        combos = must + ctx.rng.sample(rest, 24) + combos_adv
+        combos = must + ctx.rng.sample(rest, 12) + combos_adv
+    # policies that refuse by raising other exception classes (unknown host; and one known-host control)
+    rz = RAISING if ctx.thorough else RAISING[:4] + ctx.rng.sample(RAISING[4:], 2)
+    combos += [("none", "user", pol, port, None) for pol in rz for port in ((22, 2222) if ctx.thorough else (22,))]
+    combos += [("other-same-type", "user", rz[0], 22, None), ("same", "user", rz[1], 22, None)]
     # alternative entry point (auth_strategy=) and host names with upper-case letters
     base_combos = [c + ("password-arg", "host17") for c in combos]
     alt = []
@@ -617,12 +642,16 @@ def cconnect_cases(ctx, w):
         s = Session(w, advertise=ADVERTISE_NAMES.get(adv))
         calls, accepted = [], []
 
-        def rec(base, accept=None):
+        raised = []
+
+        def rec(base, accept=None, exc=None):
             class P(base):
                 def missing_host_key(self, client, hostname, key):
                     calls.append(hostname)
                     if accept is False:
-                        raise p.SSHException("custom policy says no")
+                        e = (exc or p.SSHException)("custom policy says no")
+                        raised.append(e)
+                        raise e
                     if accept is not True:
                         base.missing_host_key(self, client, hostname, key)
                     accepted.append(hostname)
@@ -631,7 +660,8 @@ def cconnect_cases(ctx, w):
         policy = {"reject": lambda: rec(p.RejectPolicy), "autoadd": lambda: rec(p.AutoAddPolicy),
                   "warning": lambda: rec(p.WarningPolicy),
                   "custom-raise": lambda: rec(p.MissingHostKeyPolicy, False),
-                  "custom-accept": lambda: rec(p.MissingHostKeyPolicy, True)}[pol]()
+                  "custom-accept": lambda: rec(p.MissingHostKeyPolicy, True)}.get(
+                      pol, lambda: rec(p.MissingHostKeyPolicy, False, REFUSALS.get(pol)))()
         name = host if port == 22 else "[%s]:%d" % (host, port)
         other = "[%s]:%d" % (host, port) if port == 22 else host
         # C41's name abstraction: equal strings <-> equal ids (host names are case-sensitive strings)
@@ -689,8 +719,8 @@ def cconnect_cases(ctx, w):
                 code = 0
             elif isinstance(v, p.BadHostKeyException):
                 code = 117
-            elif isinstance(v, p.SSHException) or not kex_ok:
-                code = 1
+            elif isinstance(v, p.SSHException) or not kex_ok or (raised and v is raised[-1]):
+                code = 1                        # incl. the policy's own exception, of whatever class, propagating
             else:
                 code = 100
             impl = [code]
@@ -714,7 +744,7 @@ def cconnect_cases(ctx, w):
             st_model = "[" + ";".join("([%s], (%d, %d))" % (nm(hn), kid[kl][0], kid[kl][1]) for hn, kl in entries) + "]"
             sysm, usrm = (st_model, "[]") if where == "system" else ("[]", st_model)
             polm = {"reject": "PReject", "autoadd": "PAutoAdd", "warning": "PWarning",
-                    "custom-raise": "(PCustom false)", "custom-accept": "(PCustom true)"}[pol]
+                    "custom-raise": "(PCustom false)", "custom-accept": "(PCustom true)"}.get(pol, "(PCustom false)")
             bracket = ids["[%s]:%d" % (host, port)]
             neg_gss = bool(s.tc.c17_kex and str(s.tc.c17_kex).startswith("gss"))      # what was NEGOTIATED
             adv_gss = any(str(x).startswith("gss-") for x in s.tc.c17_peer_kex)          # what the peer ADVERTISED
@@ -756,10 +786,16 @@ def cconnect_cases(ctx, w):
                 if calls != [name]:
                     ctx.fail("sshclient-policy-not-called", "missing_host_key was not called exactly once with the "
                              "expected host name", case=case, expected=[name], observed=calls)
-                if pol in ("reject", "custom-raise") and (auth_sent or s.srv.seen or st == "ok"):
+                if (pol == "reject" or pol in REFUSALS) and (auth_sent or s.srv.seen or st == "ok"):
                     ctx.fail("sshclient-auth-despite-policy-rejection",
-                             "SSHClient.connect authenticated to an unknown server the policy rejected",
-                             case=case, expected="SSHException, nothing sent", observed={"st": st})
+                             "SSHClient.connect authenticated to an unknown server although the policy refused it "
+                             "by raising %s" % (type(raised[-1]).__name__ if raised else "SSHException"),
+                             case=case, expected="the policy's exception, nothing sent",
+                             observed={"st": st, "auth_sent": auth_sent})
+                if pol in REFUSALS and raised and st == "exc" and v is not raised[-1]:
+                    ctx.fail("sshclient-policy-exception-replaced",
+                             "the exception a refusing policy raised did not propagate out of connect()",
+                             case=case, expected=repr(raised[-1]), observed=repr(v))
                 if pol in ("autoadd", "warning", "custom-accept") and not auth_sent:
                     ctx.fail("sshclient-honest-failed", "SSHClient.connect did not authenticate after the policy "
                              "accepted", case=case, observed=repr(v))
@@ -786,6 +822,187 @@ def cconnect_cases(ctx, w):
 
 
 # --------------------------------------------------------------------------
+# 4. the SAME SSHClient / HostKeys objects used for a second connect after the store was mutated
+
+MUTATORS = ["clear", "del", "pop", "clear+load-other", "del+add-other", "setitem-other", "add-other-type", "none"]
+FIRST_USES = ["connect", "lookup", "contains"]
+
+
+def reuse_cases(ctx, w):
+    import os
+    import shutil
+    import tempfile
+    p = w.paramiko
+    rows = []
+    combos = [(fu, mu, where, pol) for fu in FIRST_USES for mu in MUTATORS for where in ("user", "system")
+              for pol in ("reject", "autoadd", "custom-raise-permissionerror")]
+    if not ctx.thorough:
+        must = [c for c in combos if c[2] == "user" and c[3] == "reject" and c[0] in ("connect", "lookup")]
+        rest = [c for c in combos if c not in must]
+        combos = must + ctx.rng.sample(rest, 10)
+    tmp = tempfile.mkdtemp(prefix="verif-c17-")
+    try:
+        for fu, mu, where, pol in combos:
+            host, port = "host17", 22
+            name = host
+            calls, accepted, raised = [], [], []
+
+            def rec(base, refuse=None):
+                class P(base):
+                    def missing_host_key(self, client, hostname, key):
+                        calls.append(hostname)
+                        if refuse is not None:
+                            e = refuse("refused")
+                            raised.append(e)
+                            raise e
+                        base.missing_host_key(self, client, hostname, key)
+                        accepted.append(hostname)
+                return P()
+
+            policy = {"reject": lambda: rec(p.RejectPolicy), "autoadd": lambda: rec(p.AutoAddPolicy)}.get(
+                pol, lambda: rec(p.MissingHostKeyPolicy, REFUSALS[pol]))()
+            c = p.SSHClient()
+            c.set_missing_host_key_policy(policy)
+            store = c.get_host_keys() if where == "user" else c._system_host_keys
+            store.add(name, w.rsa.get_name(), w.rsa)
+            sessions = []
+
+            def connect_once():
+                s = Session(w)
+                sessions.append(s)
+                s.start_server()
+
+                def factory(sock, **kw):
+                    t = w.HookClient(sock, packetizer_class=s._client_packetizer(), **kw)
+                    t.c17_obs = s.obs
+                    s.tc = t
+                    return t
+
+                def go():
+                    with warnings.catch_warnings():
+                        warnings.simplefilter("ignore")
+                        c.connect(host, port=port, username=USER, password=PASSWORD, sock=s.csock,
+                                  allow_agent=False, look_for_keys=False, transport_factory=factory, timeout=15)
+
+                st, v = with_watchdog(go, 25)
+                return s, st, v
+
+            try:
+                case = {"first_use": fu, "mutation": mu, "where": where, "policy": pol, "side": "sshclient-reuse"}
+                # ---- first use of the store ----
+                if fu == "connect":
+                    s1, st1, v1 = connect_once()
+                    if st1 != "ok" or calls:
+                        ctx.fail("sshclient-honest-failed", "first connect to the known server failed", case=case,
+                                 observed=repr(v1))
+                    try:
+                        c._transport.close()
+                    except Exception:
+                        pass
+                elif fu == "lookup":
+                    store.lookup(name)
+                    store.check(name, w.rsa)
+                else:
+                    name in store       # noqa  (MutableMapping.__contains__ -> __getitem__ -> lookup)
+                    dict(store)
+                del calls[:], accepted[:], raised[:]
+                # ---- mutate the store through its public mutators ----
+                entries = []            # what the store holds for `name` afterwards: key labels
+                if mu == "clear":
+                    store.clear()
+                elif mu == "del":
+                    del store[name]
+                elif mu == "pop":
+                    store.pop(name)
+                elif mu == "clear+load-other":
+                    fn = os.path.join(tmp, "kh-%d" % len(rows))
+                    with open(fn, "w") as f:
+                        f.write("%s %s %s\n" % (name, w.rsa2.get_name(), w.rsa2.get_base64()))
+                    store.clear()
+                    store.load(fn)
+                    entries = ["rsa2"]
+                elif mu == "del+add-other":
+                    del store[name]
+                    store.add(name, w.rsa2.get_name(), w.rsa2)
+                    entries = ["rsa2"]
+                elif mu == "setitem-other":
+                    store[name] = {w.rsa2.get_name(): w.rsa2}
+                    entries = ["rsa2"]          # same key type: the stored key is replaced
+                elif mu == "add-other-type":
+                    store.add(name, w.ed.get_name(), w.ed)
+                    entries = ["rsa", "ed"]
+                else:
+                    entries = ["rsa"]
+                # ---- second connect through the same client ----
+                s, st, v = connect_once()
+                kex_ok = bool(s.tc.initial_kex_done)
+                auth_sent = bool(s.server_saw(5) or s.server_saw(50))
+                if st == "ok":
+                    code = 0
+                elif isinstance(v, p.BadHostKeyException):
+                    code = 117
+                elif isinstance(v, p.SSHException) or not kex_ok or (raised and v is raised[-1]):
+                    code = 1
+                else:
+                    code = 100
+                impl = [code]
+                if kex_ok:
+                    impl += [1]
+                    if calls:
+                        impl += [3, 1 if accepted else 0]
+                    elif code == 117:
+                        impl += [2, 0]
+                    elif st == "ok" or auth_sent:
+                        impl += [2, 1]
+                    if auth_sent:
+                        impl += [4]
+                kid = {"rsa": (1, 5), "rsa2": (1, 6), "ed": (2, 7)}
+                st_model = "[" + ";".join("([(Nm false 1)], (%d, %d))" % kid[k] for k in entries) + "]"
+                sysm, usrm = (st_model, "[]") if where == "system" else ("[]", st_model)
+                polm = {"reject": "PReject", "autoadd": "PAutoAdd"}.get(pol, "(PCustom false)")
+                text = "([], (%s, %s), (1, 2, 22), %s, (false, false, %s), (1, 5))" % (sysm, usrm, polm, coq(kex_ok))
+                rows.append((case, text, impl))
+                ctx.count(("reuse", fu, mu, where, pol), nontrivial=True, kind="sshclient-reuse-" + mu)
+                # ---- oracle ----
+                known_now = bool(entries)
+                matches = "rsa" in entries
+                if not known_now:
+                    if calls != [name]:
+                        ctx.fail("sshclient-stale-known-host",
+                                 "after the host was removed from the host key store (%s) a second connect through "
+                                 "the same SSHClient did not ask the missing-host-key policy" % mu, case=case,
+                                 expected=[name], observed=calls)
+                    if pol != "autoadd" and (auth_sent or s.srv.seen or st == "ok"):
+                        ctx.fail("sshclient-auth-after-host-removed",
+                                 "after the host was removed from the host key store (%s) the same SSHClient "
+                                 "authenticated to it although the policy refuses unknown hosts" % mu, case=case,
+                                 expected="policy's exception, nothing sent",
+                                 observed={"st": st, "auth_sent": auth_sent, "policy_calls": list(calls)})
+                elif not matches:
+                    if auth_sent or s.srv.seen or st == "ok" or not isinstance(v, p.BadHostKeyException):
+                        ctx.fail("sshclient-stale-host-key",
+                                 "after the stored key was replaced (%s) the same SSHClient still accepted the old "
+                                 "key" % mu, case=case, expected="BadHostKeyException, nothing sent",
+                                 observed={"st": st, "auth_sent": auth_sent, "exc": repr(v)})
+                else:
+                    if not auth_sent or calls:
+                        ctx.fail("sshclient-honest-failed", "second connect to the known server failed", case=case,
+                                 observed=repr(v))
+                if PASSWORD.encode("utf-8") in bytes(s.csock.tap):
+                    ctx.fail("password-in-plaintext", "the password appears in the raw byte stream", case=case)
+            finally:
+                try:
+                    c.close()
+                except Exception:
+                    pass
+                for x in sessions:
+                    x.close()
+    finally:
+        shutil.rmtree(tmp, ignore_errors=True)
+    return rows
+
+
+# --------------------------------------------------------------------------
 
 
 def run(ctx):
@@ -795,7 +1012,7 @@ def run(ctx):
                 "(quick: seeded 60 % sample) or after the handshake, or signing other data; Transport.connect over "
                 "hostkey argument {none, same, other same type, other types} x bad signature x credential; "
                 "SSHClient.connect(sock=), through password= and through auth_strategy=, host names in lower and mixed case, over 10 known_hosts contents x {user, system} x 5 policies x {22, 2222} "
-                "(quick: all Reject/AutoAdd user cases, every stored-key mismatch x accepting policy, + 24 sampled + 14 with a server advertising gss-X / unknown kex names; thorough: the whole grid, every mismatch / unknown-host case again with a gss-advertising server + 40 sampled others, 40 with an unknown name, and the whole user-store grid through auth_strategy= and with a mixed-case host name).  Every case is a distinct "
+                "(quick: all Reject/AutoAdd user cases, every stored-key mismatch x accepting policy, + 12 sampled + 24 with a server advertising gss-X / unknown kex names; thorough: the whole grid, every mismatch / unknown-host case again with a gss-advertising server + 40 sampled others, 40 with an unknown name, and the whole user-store grid through auth_strategy= and with a mixed-case host name).  policies refusing by raising SSHException / OSError subclasses / ValueError / KeyError / EOFError / a BaseException; the SAME SSHClient used for a second connect after a first connect / lookup / membership test and a mutation of its host key store (clear, del, pop, clear+load of another file, del+add, __setitem__, add of another type).  Every case is a distinct "
                 "script and reaches the guard / gating / comparison code, hence non-trivial.")
     ctx.trusted += ["model coq/Model/C17.v is hand-written; tied to transport.py / client.py / auth_handler.py by "
                     "gen/c17.py (AST ordering checks, fail-closed) and this scripted differential run",
@@ -803,7 +1020,7 @@ def run(ctx):
                     "the host key comparison result CCompare is reconstructed from connect()'s exception"]
     ctx.assumptions += ["each Transport.run handler runs to completion before the next message is read (single "
                         "transport thread)", "a NEGOTIATED GSS-API key exchange is exempt from host key checking (as in the code); a peer that only advertises gss-X names is not"]
-    ctx.prove()
+    ctx.prove(GENS)
     import logging
     logging.getLogger("paramiko").setLevel(logging.CRITICAL + 10)     # expected failures are noisy
     w = build_world(ctx)
@@ -855,6 +1072,7 @@ def run(ctx):
     # ---- 2. Transport.connect / 3. SSHClient.connect (oracles run inside) ----
     trows = tconnect_cases(ctx, w)
     crows = cconnect_cases(ctx, w)
+    crows += reuse_cases(ctx, w)
     if crows:
         ctx.sample({"sshclient": crows[0][0], "impl": crows[0][2]})
 
